@@ -27,6 +27,11 @@ def decodeUint32 (bs : List UInt8) : Nat :=
 def noResponseValue (firstNoRespOpt : Option (List UInt8)) : Option Nat :=
   firstNoRespOpt.map decodeUint32
 
+/-- `Options.GetUint32(NoResponse)` over the request's option list (sorted by number, as the parser and the setters
+    keep it): the value of the first option numbered 258, wherever it stands in the list. -/
+def noRespOption (opts : List (Nat × List UInt8)) : Option (List UInt8) :=
+  (opts.find? (fun o => o.1 == 258)).map (·.2)
+
 /-- `SetResponse`: refused (error, response untouched) iff a value is present and the code is suppressed. -/
 def setResponseAccepted (noResp : Option Nat) (code : Nat) : Bool :=
   match noResp with
